@@ -48,3 +48,6 @@ META = {
                "small universe + random), reference model comparison after "
                "every operation",
 }
+
+# EXTENSION families added after the seeded-change rounds
+META["rule"] += (" Added after the seeded-change rounds: " '(c15_x) histories whose keys and values are rebuilt as equal-but-not-identical objects at every use (run-time strings, large ints, tuples, bound methods as strategies)' ".")
